@@ -9,6 +9,15 @@ if REPO not in sys.path:
     sys.path.insert(0, REPO)
 sys.dont_write_bytecode = True
 
+if os.environ.get('VERIF_COVERAGE'):
+    # informational only (tools/coverage_of_checks.py): which lines/branches of mosromgr the checks reach
+    import atexit
+    import coverage as _coverage
+    _cov = _coverage.Coverage(data_file=os.environ['VERIF_COVERAGE'], data_suffix=True, branch=True,
+                              include=[REPO + '/mosromgr/*'])
+    _cov.start()
+    atexit.register(lambda: (_cov.stop(), _cov.save()))
+
 import mosromgr  # noqa: E402
 from mosromgr import mostypes, moscollection, moselements, exc  # noqa: E402
 from mosromgr.mostypes import MosFile, RunningOrder  # noqa: E402
